@@ -2,6 +2,7 @@ import Sop.Lemmas.Commit
 import Sop.Lemmas.CommitWitness
 import Sop.Lemmas.CommitPhase1
 import Sop.Lemmas.CommitSuccess
+import Sop.Lemmas.CommitPhase2Fail
 /-!
 # C01 — a committed transaction's changes appear all-or-nothing across every store
 
@@ -106,6 +107,31 @@ theorem C01_failed_phase1_keeps_every_node (s0 : State) (w : WS) (fresh0 : List 
     ∀ lid, (s0.view lid).isSome →
       (commit w n { s := s0, tid := tid, fault := fault, fresh := fresh0 }).2.s.view lid = s0.view lid :=
   commit_phase1_failure_keeps_views pre fault tid n r1 hf
+
+/-- **The error half of C01 at node level, both phases**: whenever `Commit` returns an error — the failure may be in
+phase 1, in the live rollback, in phase 2's log write or in the flip write failing without effect, and further
+failures may hit the error handling itself — every node that was loadable before is unchanged. `_partial`: the one
+fault not covered is a `failAfter` on the flip write (`registry.UpdateNoLocks` reporting an error after it took
+effect); there the priority rollback restores the logged images, which needs "the single fault is spent" and is
+checked by the correspondence run on every explored commit, not proved. The full statement `Statement_C01_err` also
+speaks of the store count, which is finding C01-F1. -/
+theorem C01_failed_commit_keeps_every_node_partial (s0 : State) (w : WS) (fresh0 : List (UUID × UUID))
+    (pre : Pre s0 w fresh0) (pre2 : Pre2 s0 w fresh0) (fault : Option Fault) (tid : Tid) (n : Nat)
+    (hnf : ¬ ∃ f, fault = some f ∧ f.cls = .regUpdateNoLocks ∧ f.kind = .failAfter)
+    (herr : (commit w n { s := s0, tid := tid, fault := fault, fresh := fresh0 }).1 = .err) :
+    ∀ lid, (s0.view lid).isSome →
+      (commit w n { s := s0, tid := tid, fault := fault, fresh := fresh0 }).2.s.view lid = s0.view lid := by
+  cases h1 : phase1 w n { s := s0, tid := tid, fault := fault, fresh := fresh0 } with
+  | error r1 => exact commit_phase1_failure_keeps_views pre fault tid n r1 h1
+  | ok p =>
+    obtain ⟨u, r1⟩ := p
+    cases h2 : phase2 w r1 with
+    | ok q =>
+      obtain ⟨u', r2⟩ := q
+      unfold commit at herr
+      simp only [h1, h2] at herr
+      cases herr
+    | error r2 => exact commit_phase2_failure_keeps_views pre pre2 fault tid n r1 r2 hnf h1 h2
 
 /-- **The success half of C01 at node level.** If `Commit` returns ok — under no fault or under any single fault it
 tolerates — then (1) the handles the transaction reserved are exactly the write set's updated nodes, at the versions
